@@ -819,7 +819,7 @@ DEEP = {
     'c07_compare_opaque_n2', 'c07_compare_nickname_n2', 'c07_compare_username_n2',
     'c01_nickname_enforce_n2', 'c01_username_mapped_enforce_n2',
     'c06_nickname_enforce_n1', 'c07_compare_nickname_n1', 'c07_compare_username_n1', 'c08_no_drift_mapped_n1',
-    'c02_std_class_n2', 'c02_std_class_n3',
+    'c02_std_class_n2', 'c02_std_class_n3', 'c01_ctx_registry_n3',
 }
 for _h in HARNESSES:
     if _h.name in DEEP:
